@@ -75,6 +75,12 @@ def build(case):
     if case.get('R0') is not None:
         C.R0 = case['R0']
     lay = Layout('v_parallel_2d', list(case['nprocs']), [0, 2, 1], eta, list(case['rank']))
+    # another operator on the same spline space, grid and block but with other constants is built first in the same
+    # process (a parameter scan): nothing may be shared between operators except what depends on the grid alone
+    C2 = Constants()
+    C2.iotaVal = 0.0 if case['iota'] != 0.0 else 0.7
+    C2.R0 = 7.0 if case.get('R0') is None else 2.0 * case['R0']
+    ParallelGradient(bs, eta, lay, C2, order=case['order'])
     pg = ParallelGradient(bs, eta, lay, C, order=case['order'])
     rs = int(lay.starts[lay.inv_dims_order[0]])
     return dict(bs=bs, kn=kn, mknots=mknots, theta=theta, z=z, r=r, C=C, lay=lay, pg=pg, rs=rs,
